@@ -22,7 +22,7 @@ import sys
 
 from common import KERNEL_TB, REPO, VERIF, Driver, Report, build_driver, check_props, coq_make, known_findings, regen_all, scan_forbidden
 
-SI_DRIVER = ("sidriver", "ExtractSi", ["simodel"], ["Model/SI.vo", "Model/PyPrelude.vo", "Gen/SIHelpers.vo", "Model/Lift.vo", "Proofs/LiftSI.vo", "Proofs/SIZext.vo"])
+SI_DRIVER = ("sidriver", "ExtractSi", ["simodel"], ["Model/SI.vo", "Model/PyPrelude.vo", "Gen/SIHelpers.vo", "Model/Lift.vo", "Proofs/LiftSI.vo", "Proofs/SIZext.vo", "Model/SIUnion.vo"])
 DOMAIN_SEED = 20260922       # the domains are fixed (independent of VERIF_SEED) so that known findings are stable
 
 
@@ -585,6 +585,17 @@ def correspondence(prop, tier, seed, drv, SI, stats):
             if m != r:
                 return {"kind": "translated helper differs from the source", "helper": name, "args": args, "model": m, "real": r}
     else:
+        # the union model against pseudo_join / union / _union (the real operands are normalised objects: the model gets
+        # what they hold)
+        for ka, kb in pairs:
+            if ka[1] is None or kb[1] is None:
+                continue
+            a, b = mk(SI, ka), mk(SI, kb)
+            m = norm_model(drv.ask(["union", [a.bits, a.stride, a.lower_bound, a.upper_bound, 0], [b.bits, b.stride, b.lower_bound, b.upper_bound, 0]]))
+            r = real_res(lambda: a.union(b))
+            stats["corr_union"] += 1
+            if m != r:
+                return {"kind": "model/implementation mismatch", "op": "union", "a": keystr(ka), "b": keystr(kb), "model": m, "real": r}
         for k in uns:
             a = mk(SI, k)
             m = drv.ask(["cardinality", si_sx(k)])
@@ -630,7 +641,7 @@ def run(prop, tier, seed, replay, make_target, rule_text, trusted, assumptions):
             return 1
         return 0
     regen_all()
-    ok_make, log = coq_make([make_target, "Proofs/SIZext.vo", "Proofs/LiftSI.vo"])
+    ok_make, log = coq_make([make_target, "Proofs/SIZext.vo", "Proofs/LiftSI.vo", "Proofs/SIUnionSound.vo"])
     pr = check_props(prop) if ok_make else {"ok": False, "obligations": [
         {"name": prop + "_*", "closed": False, "axioms": ["<does not compile>"], "ok": False}], "log": log[-3000:]}
     rep.obligations(pr, "make %s && coqc -R coq CV coq/Props/%s.v (Print Assumptions)" % (make_target, prop))
